@@ -98,9 +98,11 @@ func cmdCheck(args []string) int {
 		fmt.Fprintf(os.Stderr, "UNDECIDED property=%s: cannot load /repo with tags 'verif badger': %v\n", prop, err)
 		return 2
 	}
-	if err := e.loadSpecDir(filepath.Join(verifRoot, "specs")); err != nil {
-		fmt.Fprintln(os.Stderr, "spec error:", err)
-		return 2
+	for _, d := range []string{"specs", "trusted"} {
+		if err := e.loadSpecDir(filepath.Join(verifRoot, d)); err != nil {
+			fmt.Fprintln(os.Stderr, "spec error:", err)
+			return 2
+		}
 	}
 	// functions of this property
 	var keys []string
@@ -190,6 +192,7 @@ func cmdCheck(args []string) int {
 		}
 		for _, o := range vc.obls {
 			seen[o.Name] = true
+			seen[oblGroup(o.Name)] = true
 			if o.Cover {
 				if o.Result == "unsat" {
 					failed = append(failed, o)
@@ -222,7 +225,7 @@ func cmdCheck(args []string) int {
 			reg.Functions = append(reg.Functions, vc.root)
 			for _, o := range vc.obls {
 				if !o.Cover && o.ok() {
-					reg.Obligations[o.Name] = o.Solver
+					reg.Obligations[oblGroup(o.Name)] = o.Solver
 				}
 			}
 		}
@@ -373,6 +376,15 @@ func cmdCheck(args []string) int {
 	}
 	fmt.Printf("property %s: %d obligations, %d discharged, %d known findings, %d violations, %.1fs\n", prop, total, discharged, len(knownLines), violations, time.Since(t0).Seconds())
 	return exit
+}
+
+// oblGroup: obligations of one clause at different return sites belong to one group
+// (the registry tracks groups so that editing a return statement does not orphan a clause).
+func oblGroup(name string) string {
+	if i := strings.Index(name, "@"); i > 0 && strings.Contains(name[:i], "#ensures") {
+		return name[:i]
+	}
+	return name
 }
 
 func round3(f float64) float64 { return float64(int(f*1000+0.5)) / 1000 }
